@@ -54,7 +54,7 @@ func ScratchDir(prefix string) (string, error) {
 }
 
 // ClassifyError maps a TLC evaluation error message to a coarse, stable class:
-// overflow | div-by-zero | out-of-domain | assert | choose | type | not-enumerable | stack-overflow | other.
+// overflow | div-by-zero | undefined | out-of-domain | assert | choose | type | not-enumerable | stack-overflow | other.
 func ClassifyError(msg string) string {
 	m := strings.ToLower(msg)
 	switch {
@@ -68,6 +68,8 @@ func ClassifyError(msg string) string {
 		strings.Contains(m, "second argument to \"%\"") || strings.Contains(m, "the second argument of %") ||
 		strings.Contains(m, "by zero") || strings.Contains(m, "second argument of \\div is 0") || strings.Contains(m, "second argument of % "):
 		return "div-by-zero"
+	case strings.Contains(m, "is undefined"):
+		return "undefined"
 	case strings.Contains(m, "first argument of assert evaluated to false"):
 		return "assert"
 	case strings.Contains(m, "choose x \\in s: p, but no element of s satisfied p") || strings.Contains(m, "attempted to compute the value of an expression of form\nchoose"):
